@@ -25,6 +25,8 @@ func runC13(c *eng.Ctx) {
 	ruleRegisteredMemberIsThisCall(c)
 	c.Rule("R13.10", "K2")
 	ruleGroupMembersOnlyWhileLeading(c)
+	c.Rule("R13.2", "K1")
+	ruleNewerMemberAlwaysWins(c)
 	p := c.P
 	cons := p.Field("server", "partition", "consumers")
 	if cons == nil {
